@@ -143,6 +143,8 @@ def flag_events(rep, thorough):
         subsets = [[]] + [[m] for m in members] + [members]
         for _ in range(40 if thorough else 12):
             subsets.append(rng.sample(members, rng.randint(2, min(4, len(members)))))
+        # a collection that names a member twice (a list built by concatenation): the field is the OR, not the sum
+        subsets += [[members[0], members[0]], [members[-1], members[0], members[-1]], members + members[:1]]
         for sub in subsets:
             for shift in ((0, 16) if width == 4 else (0,)):
                 w = 2 if shift else width
@@ -161,8 +163,8 @@ def flag_events(rep, thorough):
                     except Exception:  # pylint: disable=broad-except
                         back = [-1]
                 ev.append({'k': 'flags', 'enum': cls.__name__, 'w': w, 'shift': shift, 'members': [digits(v) for v in vals],
-                           'ids': sorted(int(m) for m in sel if m), 'back': back, 'wire': list(wire), 'out': out})
-                rep.case('flags|%s|%s|%d' % (cls.__name__, sorted(int(m) for m in sel), shift))
+                           'ids': sorted({int(m) for m in sel if m}), 'back': back, 'wire': list(wire), 'out': out})
+                rep.case('flags|%s|%s|%d' % (cls.__name__, [int(m) for m in sel], shift))
     return ev
 
 
